@@ -39,6 +39,8 @@ def agrees(truth_i, given_i, pa, pb, method, ir_idx, active, via_main=False):
         given = givens(truth)[given_i]
         others = [k for k in given if k != truth]
         pre = dict(zip(others, (pa, pb)))
+        if any(st == 5 and k != "class" for k, st in pre.items()):
+            return True  # the extra-trailing-member pre-state is built for class targets only
         try:
             fs = build(truth, given, pre, method, ir_idx)
         except IndexError:
@@ -79,7 +81,7 @@ def agrees(truth_i, given_i, pa, pb, method, ir_idx, active, via_main=False):
                 if ("KF-C09-empty-return-default" in active and where == "returns" and code == "default-lost"
                         and isinstance(rt_.get("default"), str) and rt_["default"] == ""):
                     continue  # emit.function drops an empty-string return default (falsy)
-                if "KF-C09-stale-function" in active and k in ("function", "argparse_function") and PRE[pre.get(k, 4)] == "stale":
+                if "KF-C09-stale-function" in active and k in ("function", "argparse_function") and PRE[pre.get(k, 4)] in ("stale", "stale_extra"):
                     continue
                 return False
         return True
@@ -158,10 +160,10 @@ def obligations(tier, seed):
                 obs.append(Ob(
                     name="agrees_%s_%s%s" % (KINDS[t], "method" if m else "function", "_main" if via else ""),
                     params=[("g", "int"), ("pa", "int"), ("pb", "int"), ("i", "int")],
-                    pre=["0 <= g <= 2", "0 <= pa <= 4", "0 <= pb <= 4", "0 <= i <= 2", "g == 0 or pb == 0"],
+                    pre=["0 <= g <= 2", "0 <= pa <= 5", "0 <= pb <= 5", "0 <= i <= 2", "g == 0 or pb == 0"] + (["i == 0"] if via else []),
                     body="H.agrees(%d, g, pa, pb, %d, i, {ACTIVE}, via_main=%r)" % (t, m, via), witness=(0, 4, 4, 0), kind="F",
                     bounds="truth=%s, function target is a %s, via %s; which kinds are given (all three / truth + one other), the pre-state of every "
-                    "non-truth target in {missing, empty, definition absent, stale, agreeing} and the interface description (pool of 3, one with a return entry that carries a default): exhaustive"
+                    "non-truth target in {missing, empty, definition absent, stale, agreeing, stale-with-one-extra-trailing-parameter} and the interface description (pool of 3, one with a return entry that carries a default): exhaustive"
                     % (KINDS[t], "method" if m else "top-level function", "__main__.main(argv)" if via else "conformance.ground_truth"),
                     timeout=280 if tier == "quick" else 1200, path_timeout=120, funcs=FUNCS))
     obs.append(Ob(name="second_file_of_truth_kind", params=[("t", "int"), ("st", "int"), ("m", "int"), ("i", "int")],
